@@ -14,6 +14,7 @@ package main
 import (
 	"bytes"
 	"fmt"
+	"os"
 	"strconv"
 	"strings"
 
@@ -210,6 +211,11 @@ func (c *Ctx) plyV4s(n int, vc plyValueClass, unit bool) []vector4.Float64 {
 // structured mesh: topology, size class, attribute subset, index pattern
 func (c *Ctx) plyMesh(vc plyValueClass) plyGenMesh {
 	tri := c.Rng.Intn(2) == 0
+	// "one vertex per corner, but the index buffer is not 0..n-1": reordered faces, flipped winding, shared +
+	// unreferenced vertices with vertex count == corner count (a reader that takes this for an unwelded mesh and skips
+	// the unweld puts per-corner data on the wrong corners)
+	cornerClass := tri && c.Rng.Intn(4) == 0
+	forceNF := -1
 	var nv int
 	switch c.Rng.Intn(10) {
 	case 0:
@@ -220,6 +226,11 @@ func (c *Ctx) plyMesh(vc plyValueClass) plyGenMesh {
 		nv = 9 + c.Rng.Intn(30)
 	default:
 		nv = 2 + c.Rng.Intn(6)
+	}
+	if cornerClass {
+		forceNF = 1 + c.Rng.Intn(3)
+		nv = 3 * forceNF
+		c.Note("mesh:vertex-count=corner-count")
 	}
 	g := plyGenMesh{}
 	type setter func(m modeling.Mesh) modeling.Mesh
@@ -244,11 +255,11 @@ func (c *Ctx) plyMesh(vc plyValueClass) plyGenMesh {
 				sets = append(sets, func(m modeling.Mesh) modeling.Mesh { return m.SetFloat4Attribute(modeling.ColorAttribute, d) })
 			}
 		}
-		if (tri && c.Rng.Intn(2) == 0) || (!tri && c.Rng.Intn(3) == 0) {
+		if (tri && (cornerClass || c.Rng.Intn(2) == 0)) || (!tri && c.Rng.Intn(3) == 0) {
 			if !tri {
 				c.Note("mesh:point+texcoord")
 			}
-			d := c.plyV2s(nv, vc, false)
+			d := plyTaggedUV(nv, c.Rng.Intn(16)) // distinct per vertex: a UV on the wrong corner is visible
 			sets = append(sets, func(m modeling.Mesh) modeling.Mesh { return m.SetFloat2Attribute(modeling.TexCoordAttribute, d) })
 		}
 		if c.Rng.Intn(4) == 0 { // splat attributes
@@ -313,8 +324,29 @@ func (c *Ctx) plyMesh(vc plyValueClass) plyGenMesh {
 				nf = 1 + c.Rng.Intn(7)
 			}
 		}
+		if forceNF >= 0 {
+			nf = forceNF
+		}
 		indices = make([]int, nf*3)
-		switch c.Rng.Intn(4) {
+		pattern := c.Rng.Intn(4)
+		if cornerClass {
+			pattern = 4 + c.Rng.Intn(3)
+		}
+		switch pattern {
+		case 4: // a permutation of 0..n-1
+			copy(indices, c.Rng.Perm(nv))
+			c.Note("indices:permutation")
+		case 5: // faces stored in another order and / or with flipped winding
+			for f := 0; f < nf; f++ {
+				src := (f + 1) % nf
+				indices[3*f], indices[3*f+1], indices[3*f+2] = 3*src, 3*src+2, 3*src+1
+			}
+			c.Note("indices:reordered-flipped")
+		case 6: // shared and unreferenced vertices, still as many vertices as corners
+			for i := range indices {
+				indices[i] = c.Rng.Intn(nv)
+			}
+			c.Note("indices:shared+unreferenced")
 		case 0: // identity-like (unwelded) where possible
 			for i := range indices {
 				indices[i] = i % nv
@@ -352,6 +384,57 @@ func (c *Ctx) plyMesh(vc plyValueClass) plyGenMesh {
 		c.Note("mesh:empty")
 	}
 	return g
+}
+
+// texture coordinates tagged by the vertex number (dyadic, exactly printable)
+func plyTaggedUV(n, k int) []vector2.Float64 {
+	out := make([]vector2.Float64, n)
+	for i := range out {
+		out[i] = vector2.New(float64(i+1)/8+float64(k), -float64(2*i+1)/64)
+	}
+	return out
+}
+
+// a large mesh whose values are tagged by the vertex number: sizes cross internal batch / buffer boundaries
+func (c *Ctx) plyMeshLarge(nv int, tri bool, nf int) plyGenMesh {
+	pos := make([]vector3.Float64, nv)
+	col := make([]vector3.Float64, nv)
+	tag := make([]float64, nv)
+	for i := range pos {
+		pos[i] = vector3.New(float64(i), float64(i)/8, -float64(i)-0.5)
+		col[i] = vector3.New(float64(i%9)/8, float64((i/9)%9)/8, float64((i/81)%9)/8)
+		tag[i] = float64(i + 1)
+	}
+	var indices []int
+	topo := modeling.PointTopology
+	if tri {
+		topo = modeling.TriangleTopology
+		indices = make([]int, 3*nf)
+		for i := range indices {
+			indices[i] = c.Rng.Intn(nv)
+		}
+	} else {
+		indices = make([]int, nv)
+		for i := range indices {
+			indices[i] = i
+		}
+	}
+	m := modeling.NewMesh(topo, indices).SetFloat3Attribute(modeling.PositionAttribute, pos).SetFloat1Attribute("tag", tag)
+	if c.Rng.Intn(2) == 0 {
+		m = m.SetFloat3Attribute(modeling.ColorAttribute, col)
+	}
+	if c.Rng.Intn(2) == 0 {
+		m = m.SetFloat2Attribute(modeling.TexCoordAttribute, plyTaggedUV(nv, 0))
+	}
+	if c.Rng.Intn(3) == 0 {
+		rot := make([]vector4.Float64, nv)
+		for i := range rot {
+			rot[i] = vector4.New(float64(i), float64(i)+0.25, float64(i)+0.5, float64(i)+0.75)
+		}
+		m = m.SetFloat4Attribute(modeling.RotationAttribute, rot)
+	}
+	c.Note(fmt.Sprintf("large:nv=%d:tri=%v:nf=%d", nv, tri, nf))
+	return plyGenMesh{mesh: m, userV1: []string{"tag"}}
 }
 
 var plyScalarTypes = []ply.ScalarPropertyType{ply.Float, ply.Float, ply.Double, ply.UChar, ply.Int}
@@ -431,6 +514,10 @@ func plyWritesSomething(data []byte) bool {
 
 // one mesh × one configuration × three encodings
 func (c *Ctx) plyCase(g plyGenMesh, w plyWCfg, formats []ply.Format, agreeOp string) {
+	c.plyCaseEP(g, w, formats, agreeOp, c.Rng.Intn(4) == 0)
+}
+
+func (c *Ctx) plyCaseEP(g plyGenMesh, w plyWCfg, formats []ply.Format, agreeOp string, fullEntries bool) {
 	m := g.mesh
 	backs := []string{}
 	for _, f := range formats {
@@ -457,6 +544,24 @@ func (c *Ctx) plyCase(g plyGenMesh, w plyWCfg, formats []ply.Format, agreeOp str
 		c.Emit("c04.read", plyHx(data), rs)
 		if back == nil {
 			c.Note("read:" + rs)
+		}
+		// the written file loads to the same mesh through every public entry point and reader type …
+		c.Emit("c04.holds.entrypoints_agree", rs+" | "+plyEntryResults(data, fullEntries), "true")
+		c.Emit("c04.holds.header_entrypoints_agree", plyHeaderEntryResults(data), "true")
+		if w.isDefault {
+			// … and ply.Save (file) stores exactly the bytes ply.Write produces
+			saved := Guard(func() string {
+				p := plyTmpFile(nil)
+				if err := ply.Save(p, m, f); err != nil {
+					return "err"
+				}
+				b, err := os.ReadFile(p)
+				if err != nil {
+					return "err"
+				}
+				return plyHx(b)
+			})
+			c.Emit("c04.holds.save_agrees", plyHx(data)+" | "+saved, "true")
 		}
 		if m.AttributeLength() > 0 && !plyWritesSomething(data) {
 			// the configuration selects no property writer for a non-empty mesh: "element vertex n" without
@@ -495,6 +600,27 @@ func runC04(c *Ctx) {
 			backs = append(backs, rs)
 		}
 		c.Emit("c04.holds.uchar_scalar_ascii_agrees", strings.Join(backs, " "), "true")
+	}
+	defer plyTmpCleanup()
+	// sizes that cross plausible internal boundaries (4096-record batches, 4096 / 65536-byte buffers), all encodings
+	type large struct {
+		nv  int
+		tri bool
+		nf  int
+	}
+	larges := []large{{4097, false, 0}, {5000, true, 2200}}
+	if c.Tier == "thorough" {
+		larges = append(larges, large{4095, false, 0}, large{4096, true, 1400}, large{8193, false, 0}, large{10001, true, 3500},
+			large{4100, true, 4100}, large{30000, false, 0})
+	}
+	for i, l := range larges {
+		g := c.plyMeshLarge(l.nv, l.tri, l.nf)
+		if i%2 == 0 || c.Tier == "thorough" {
+			c.plyCaseEP(g, plyWCfg{isDefault: true}, plyFormats, "c04.holds.encodings_agree", false)
+		}
+		if i%2 == 1 || c.Tier == "thorough" {
+			c.plyCaseEP(g, c.plyCfg(g), plyFormats, "c04.holds.encodings_agree", false)
+		}
 	}
 	for k := 0; k < c.N; k++ {
 		g := c.plyMesh(plyVcNice)
